@@ -377,6 +377,14 @@ Proof.
 Qed.
 
 (* ------------------------------------------------------------------ the whole report *)
+(* soft_errors: reported only in the documented shape, for EVERY content of the stream *)
+Lemma soft_conforms o : conforms (SArr SAnyObj) (soft_value o) = true.
+Proof.
+  destruct o as [v|]; [|reflexivity]. unfold soft_value. destruct (soft_ok v) eqn:E; [|reflexivity].
+  destruct v as [| | | |l|]; try discriminate E. cbn [soft_ok] in E. cbn [conforms].
+  apply forallb_forall. intros e He. rewrite forallb_forall in E. specialize (E e He). destruct e; try discriminate E; reflexivity.
+Qed.
+
 Lemma wf_state_ok s : wf_state s = true -> state_ok s.
 Proof.
   unfold wf_state, state_ok. intro H. splitb. repeat split.
@@ -409,6 +417,7 @@ Definition tail_obj (s : state) : list (list Z * json) :=
     (k_modules_contains_cert_info, JBool (match s_certinfo s with [] => false | _ => true end));
     (k_pid, jopt JNum (s_pid s));
     (k_proc_limits, jopt (fun l => JObj [(k_limits, JArr (map json_of_limit (sort_limits l)))]) (s_limits s));
+    (k_soft_errors, soft_value (s_soft s));
     (k_status, JStr s_OK);
     (k_system_info, json_of_sys (s_sys s));
     (k_thread_count, JNum (Z.of_nat (length (s_threads s))));
@@ -462,6 +471,7 @@ Proof.
     eapply arr_map; [reflexivity|]. intros x Hx. apply In_sort in Hx.
     match goal with H : forallb _ l = true |- _ => rewrite forallb_forall in H; specialize (H x Hx) end. splitb.
     apply limit_conforms; assumption.
+  - apply soft_conforms.
   - apply sys_conforms. assumption.
   - eapply arr_map; [reflexivity|]. intros t Ht. apply thread_conforms.
     match goal with H : forallb wf_thread _ = true |- _ => rewrite forallb_forall in H; exact (H t Ht) end.
